@@ -336,7 +336,8 @@ class Executor(object):
 
     def _create_scheduler(self, scheduler, print_execution_plan):
         # figure out whether to use parallel scheduler
-        if cpu_count() > 1:
+        # (the execution plan is printed by one thread, line by line)
+        if cpu_count() > 1 and not print_execution_plan:
             i = 0
             for run in self._runs:
                 if not run.execute_exclusively:
